@@ -309,11 +309,18 @@ func VerifH_match_delrule() {
 	in := schemaRoute()
 	out := newFakeMD("vf.Resp", strField("r"))
 	tmpls := []string{"/v1/{f=**}", "/v1/{g=aa/*}", "/v1/{h.k=aa/bb}", "/v1/{h.c=*}"}
+	// every template its own method, or one method owning the two variables that are ADJACENT in the
+	// node's sort order ({h.c=*} and {f=**}): its removal deletes two neighbours at once
+	owner := []int{0, 1, 2, 3}
+	if vfBool() {
+		owner = []int{0, 1, 2, 0}
+		vfCover("two-adjacent-variables-removed")
+	}
 	descs := make([]*fakeMethod, len(tmpls))
 	for i := range tmpls {
-		descs[i] = &fakeMethod{full: "vf.S.D" + string(rune('0'+i)), in: in, out: out}
+		descs[i] = &fakeMethod{full: "vf.S.D" + string(rune('0'+owner[i])), in: in, out: out}
 	}
-	name := func(i int) string { return "/vf.S/D" + string(rune('0'+i)) }
+	name := func(i int) string { return "/vf.S/D" + string(rune('0'+owner[i])) }
 	// registration order of the full set: identity or reversed
 	order := []int{0, 1, 2, 3}
 	if vfBool() {
@@ -329,7 +336,7 @@ func VerifH_match_delrule() {
 	full.delRule(name(k))
 	fresh := newPath()
 	for _, i := range order {
-		if i == k {
+		if owner[i] == owner[k] {
 			continue
 		}
 		if err := fresh.addRule(vfHTTPRule("GET", tmpls[i]), descs[i], name(i)); err != nil {
